@@ -5,8 +5,10 @@
 using namespace mustache;
 
 namespace {
-    std::set<WorldId> used_world_ids;
-    WorldId next_id = WorldId::make(0);
+    // ids handed out by nextWorldId() and not yet given back by the destruction of their world
+    std::set<WorldId> reserved_world_ids;
+    // ids of the worlds alive now (explicitly numbered ones included)
+    std::multiset<WorldId> live_world_ids;
 }
 
 World::World(const WorldContext& context, WorldId id):
@@ -15,11 +17,19 @@ World::World(const WorldContext& context, WorldId id):
     entities_{*this},
     world_storage_{memoryManager()} {
     MUSTACHE_PROFILER_BLOCK_LVL_0("World::World()");
+    live_world_ids.insert(id_);
 }
 
 World::~World() {
     MUSTACHE_PROFILER_BLOCK_LVL_0("World::~World()");
-    used_world_ids.erase(id_);
+    const auto it = live_world_ids.find(id_);
+    if (it != live_world_ids.end()) {
+        live_world_ids.erase(it);
+    }
+    if (live_world_ids.count(id_) == 0) {
+        // the id can be handed out again
+        reserved_world_ids.erase(id_);
+    }
 }
 
 void World::init() {
@@ -47,12 +57,12 @@ void World::update() {
 WorldId World::nextWorldId() noexcept {
     MUSTACHE_PROFILER_BLOCK_LVL_3("World::nextWorldId()");
 
-    if (!used_world_ids.empty()) {
-        auto result = *used_world_ids.begin();
-        used_world_ids.erase(result);
-        return result;
+    // the smallest id that is neither reserved nor carried by a live world: ids of destroyed worlds are reused,
+    // so the id fits the world field of Entity as long as no more than 2^10 worlds are alive at once
+    auto result = WorldId::make(0);
+    while (reserved_world_ids.count(result) > 0 || live_world_ids.count(result) > 0) {
+        ++result;
     }
-    auto result = next_id;
-    ++next_id;
+    reserved_world_ids.insert(result);
     return result;
 }
